@@ -3,7 +3,7 @@ Lemmas about the model of `Tree::symmetricLayout`, part 6: the level list of a t
 `1 + max depth of the placed c-trees` entries (`m_depth`), so the second equation of `overlay` (subtree deeper
 than the parent's pre-allocated rank bounds) is never used by `placeAll`.
 -/
-import AdaptaVerif.Lemmas.TreeLayoutInv
+import AdaptaVerif.Lemmas.TreeLayoutPerm
 namespace AdaptaVerif.Lemmas.TreeLayout
 open AdaptaVerif.Model.TreeLayout
 
@@ -72,5 +72,59 @@ theorem placeAll_overlay_total (cfg : Cfg) (id : Nat) (w h : Rat) (c : Bool) :
     exact le_maxDepth (List.mem_append_left _ hx))]
   simp only [initSt, List.length_replicate]
   exact le_maxDepth (List.mem_append_right _ (List.mem_cons_self ..))
+
+/-! ### the two notions of depth agree: `m_depth` from the constructor's BFS (`Key.depth`) and the number of
+rank bounds the layout ends up with -/
+
+theorem maxDepth_perm {l₁ l₂ : List Lay} (p : l₁.Perm l₂) : maxDepth l₁ = maxDepth l₂ := by
+  unfold maxDepth
+  exact p.foldl_eq' (fun x _ y _ z => by omega) 0
+
+theorem maxDepth_eq (ls : List Lay) : maxDepth ls = (ls.map (·.levels.length)).foldl max 0 := by
+  unfold maxDepth
+  rw [List.foldl_map]
+
+theorem zipLong_length {α : Type} (f : α → α → α) : ∀ xs ys : List α,
+    (zipLong f xs ys).length = max xs.length ys.length
+  | [], ys => by simp [zipLong]
+  | _ :: _, [] => by simp [zipLong]
+  | x :: xs, y :: ys => by simp [zipLong, zipLong_length f xs ys]
+
+theorem foldl_zipLong_length {α : Type} (f : α → α → α) : ∀ (ls : List (List α)) (acc : List α),
+    (ls.foldl (zipLong f) acc).length = (ls.map List.length).foldl max acc.length
+  | [], _ => rfl
+  | l :: ls, acc => by
+    rw [List.foldl_cons, foldl_zipLong_length f ls, zipLong_length, List.map_cons, List.foldl_cons]
+
+theorem mkKey_depth (ks : List Key) : (mkKey ks).depth = (ks.map Key.depth).foldl max 0 + 1 := by
+  unfold mkKey Key.depth
+  simp only [List.length_cons, Nat.add_right_cancel_iff]
+  rw [foldl_zipLong_length, List.map_map]
+  rfl
+
+/-- every c-tree layout has as many ranks as its key's depth, for every permutation-valued ordering -/
+theorem layoutAll_depths {ord : Order} (hord : OrderPerm ord) (cfg : Cfg) : ∀ f : Forest,
+    (layoutAll ord cfg f).map (·.levels.length) = (keys f).map Key.depth := by
+  intro f
+  induction f with
+  | nil => rfl
+  | cons id w h kids rest ihk ihr =>
+    simp only [layoutAll, keys, List.map_cons, ihr, List.cons.injEq, and_true]
+    unfold layoutNode
+    rw [placeAll_levels_length, mkKey_depth, ← ihk, ← maxDepth_eq]
+    congr 1
+    refine maxDepth_perm (pick_perm ?_)
+    rw [← (length_keys kids).trans (length_layoutAll ord cfg kids).symm]
+    exact hord true (keys kids)
+
+theorem layoutWith_depth {ord : Order} (hord : OrderPerm ord) (cfg : Cfg) (convex : Bool) (id : Nat) (w h : Rat)
+    (kids : Forest) :
+    (layoutWith ord cfg convex id w h kids).levels.length = (mkKey (keys kids)).depth := by
+  unfold layoutWith layoutNode
+  rw [placeAll_levels_length, mkKey_depth, ← layoutAll_depths hord cfg kids, ← maxDepth_eq]
+  congr 1
+  refine maxDepth_perm (pick_perm ?_)
+  rw [← (length_keys kids).trans (length_layoutAll ord cfg kids).symm]
+  exact hord convex (keys kids)
 
 end AdaptaVerif.Lemmas.TreeLayout
